@@ -55,6 +55,9 @@ func (ctx *EvalCtx) extMethod(recv CV, name string, argExprs []ast.Expr) (CV, bo
 			for k := 0; k < rs.Len(); k++ {
 				res = append(res, CV{ex.f.App(fmt.Sprintf("ext.%s.r%d", sanitize(full), k), ex.tm.SortOf(rs.At(k).Type()), args...), rs.At(k).Type()})
 			}
+			if nonNegExternal[full] && ctx.st != nil {
+				ex.assume(ctx.st, ex.f.Ge(res[0].t, ex.f.Int(0)))
+			}
 			if ctx.tuples == nil {
 				ctx.tuples = map[*Term][]CV{}
 			}
